@@ -129,6 +129,8 @@ class ProgCheck(Check):
         if dump["cd"] != 0 or dump["ed"] != 0 or dump["tmp"] != 0:
             return self.record_violation("residue after the run: control depth %d, exec depth %d, temporaries %d" % (dump["cd"], dump["ed"], dump["tmp"]), c, outcome, m)
         for name, (ty, flags, val) in dump["syms"].items():
+            if not val.endswith("/l"):
+                return self.record_violation("flag invariant broken: variable %s = %s does not carry the LVALUE flag after the run" % (name, val), c, outcome, m)
             if flags != "s0l0" and not name.startswith("$"):
                 return self.record_violation("symbol %s keeps constraint flags %s after the run" % (name, flags), c, outcome, m)
 
